@@ -1597,7 +1597,10 @@ func (d *decoderBincBytes) kInterfaceNaked(f *decFnInfo) (rvn reflect.Value) {
 		if bytes == nil {
 
 			if bfn == nil {
+
+				d.depthIncr()
 				d.decode(&re.Value)
+				d.depthDecr()
 				rvn = rv4iptr(&re).Elem()
 			} else if bfn.ext == SelfExt {
 				rvn = rvZeroAddrK(bfn.rt, bfn.rt.Kind())
@@ -5687,7 +5690,10 @@ func (d *decoderBincIO) kInterfaceNaked(f *decFnInfo) (rvn reflect.Value) {
 		if bytes == nil {
 
 			if bfn == nil {
+
+				d.depthIncr()
 				d.decode(&re.Value)
+				d.depthDecr()
 				rvn = rv4iptr(&re).Elem()
 			} else if bfn.ext == SelfExt {
 				rvn = rvZeroAddrK(bfn.rt, bfn.rt.Kind())
